@@ -1,20 +1,56 @@
 (* C16 - exporting and re-importing genesis preserves all bridge state and behaviour.
    Statements only; proofs are in Proofs/.  [Genesis1.export] walks the ophost collections as
    ExportGenesis does, [validate] is ValidateGenesis, [import c base g] is InitGenesis into
-   fresh ophost stores next to the other modules' state of [base]. *)
+   fresh ophost stores next to the other modules' state of [base] (x/bank, IBC keepers). *)
 From stdpp Require Import gmap numbers list.
 From Coq Require Import ZArith.
 Require Import Model.Bytes Model.Bank Model.Hashes Model.Valset Model.L1 Model.Genesis1.
-Require Import Proofs.Genesis1Lemmas Proofs.Genesis1Proofs.
+Require Import Proofs.Genesis1Lemmas Proofs.Genesis1Proofs Proofs.Genesis1Inv Proofs.Genesis1Behave.
 
-(* For every L1 state satisfying the reachable-state invariant: the exported genesis passes
-   ValidateGenesis, InitGenesis of it succeeds and yields a state equal to the original on
-   every ophost component (Leibniz equality of configs, outputs, claim records, token pairs,
-   batch-info history, params, next bridge id; the two per-bridge counter tables agree as the
-   functions the keeper's getters expose), and exporting again gives the identical genesis. *)
+(* The invariant [l1_inv] (everything is recorded under an existing bridge id below the next
+   bridge id, counters are at least 1, configs are valid, hashes have 32 bytes, denoms are
+   valid, every bridge has a batch-info history with contiguous indices from 0 whose first
+   entry carries the empty output and whose last entry is the current batch info, the
+   registration fee is a valid coin set) holds in EVERY state reachable by any history of all
+   message kinds from an empty ophost store (whatever the bank balances and IBC channels). *)
+Theorem C16_l1_invariant_reachable : ∀ (c : cfg) (s0 : l1state) (h : list (env * msg)),
+  hash_wf c → same_ophost init_state s0 → l1_inv c (run c s0 h).1.
+Proof. exact reachable_inv. Qed.
+
+(* For every L1 state satisfying the invariant: the exported genesis passes ValidateGenesis,
+   InitGenesis of it succeeds and yields a state equal to the original on every ophost
+   component (Leibniz equality of configs, outputs, claim records, token pairs, batch-info
+   history, params, next bridge id; the two per-bridge counter tables agree as the functions
+   the keeper's getters expose - an absent entry reads as 1, InitGenesis writes it
+   explicitly), and exporting again gives the identical genesis. *)
 Theorem C16_l1_roundtrip : ∀ (c : cfg) (s : l1state), l1_inv c s →
   validate c (export s) = true ∧
   ∃ f, import c s (export s) = Some f ∧ l1_eqv f s ∧ export f = export s.
 Proof. exact c16_l1_roundtrip. Qed.
 
+(* Equivalent states answer every message identically and stay equivalent. *)
+Theorem C16_l1_step_congruence : ∀ (c : cfg) (e : env) (s t : l1state) (m : msg), l1_eqv s t →
+  (step c e s m).2 = (step c e t m).2 ∧ l1_eqv (step c e s m).1 (step c e t m).1.
+Proof. exact step_eqv. Qed.
+
+(* Hence the re-imported chain answers EVERY later history of messages exactly as the original
+   would, its states stay equivalent to the original's and export the same genesis for ever. *)
+Theorem C16_l1_same_behaviour : ∀ (c : cfg) (s : l1state) (h : list (env * msg)), l1_inv c s →
+  ∃ f, import c s (export s) = Some f ∧
+       (run c f h).2 = (run c s h).2 ∧ l1_eqv (run c f h).1 (run c s h).1 ∧
+       export (run c f h).1 = export (run c s h).1.
+Proof. exact c16_l1_same_behaviour. Qed.
+
+(* The hypotheses are satisfiable: a hash function with [hash_wf], and a reached state with two
+   bridges (one without deposits: its counter entry is absent before and explicit after). *)
+Theorem C16_l1_nonvacuous :
+  hash_wf ex_cfg ∧ length (g_bridges (export ex_state)) = 2%nat ∧
+  next_seq ex_state !! 1%N = None ∧
+  ((λ f, (next_seq f !! 1%N, next_seq f !! 2%N)) <$> import ex_cfg ex_state (export ex_state)) = Some (Some 1%N, Some 2%N).
+Proof. split; [exact hash_wf_sat|]. pose proof ex_roundtrip. tauto. Qed.
+
+Print Assumptions C16_l1_invariant_reachable.
 Print Assumptions C16_l1_roundtrip.
+Print Assumptions C16_l1_step_congruence.
+Print Assumptions C16_l1_same_behaviour.
+Print Assumptions C16_l1_nonvacuous.
